@@ -211,6 +211,8 @@ def caps(repo, run):
     for q in ("brentsroot", "brentsrootvec"):
         fn = repo.get(OPT, q)
         loop = [st for st in fn.body if isinstance(st, ast.While)][0]
+        from ..sym import inline_locals as _il
+        lenv = _il(fn)
         incs = set()
         for st in ast.walk(loop):
             if isinstance(st, ast.AugAssign) and isinstance(st.op, ast.Add) and isinstance(st.target, ast.Name):
@@ -225,6 +227,9 @@ def caps(repo, run):
             names = {x.id for x in ast.walk(cmp_) if isinstance(x, ast.Name)}
             consts = []
             for side in [cmp_.left] + cmp_.comparators:
+                # a cap named once before the loop (`numiter_cap = 64`) is the same constant
+                if isinstance(side, ast.Name) and side.id in lenv and side.id not in incs:
+                    side = lenv[side.id]
                 try:
                     consts.append(const_value(side))
                 except ValueError:
@@ -371,7 +376,9 @@ def bracket_invariant(repo, run):
     loop = [st for st in fn.body if isinstance(st, ast.While)][0]
     body = loop.body
     i0 = next((i for i, st in enumerate(body) if isinstance(st, ast.Assign) and src(st.targets[0]) == "fs"), None)
-    i1 = next((i for i, st in enumerate(body) if isinstance(st, ast.Assign) and src(st.targets[0]) == "conv"), None)
+    # the convergence flag, by role: the boolean local the `while` test reads (whatever it is called)
+    flagnames = {n.id for n in ast.walk(loop.test) if isinstance(n, ast.Name)}
+    i1 = next((i for i, st in enumerate(body) if isinstance(st, ast.Assign) and isinstance(st.targets[0], ast.Name) and st.targets[0].id in flagnames), None)
     if i0 is None or i1 is None or i1 <= i0:
         raise AnalysisError("brentsroot: update block (fs = f(s) ... conv = ...) not found")
     block = [st for st in body[i0 + 1:i1] if not (isinstance(st, ast.AugAssign) and src(st.target) == "numiter")]
@@ -442,14 +449,20 @@ def bracket_invariant(repo, run):
     stores = {}
     cur_mask = None
     masks = {}
+    # masks by role: any boolean local used as the index of a masked store; its CURRENT definition (text, other mask names resolved) is the condition of the store
+    vflag = {n.id for n in ast.walk(vloop.test) if isinstance(n, ast.Name)}
+    mask_def = {}
     for st in vb[j0 + 1:] if j0 is not None else []:
-        if isinstance(st, ast.Assign) and src(st.targets[0]) == "conv":
+        if isinstance(st, ast.Assign) and isinstance(st.targets[0], ast.Name) and (st.targets[0].id in vflag or st.targets[0].id == "conv"):
             break
-        if isinstance(st, ast.Assign) and isinstance(st.targets[0], ast.Name) and st.targets[0].id == "mask":
-            cur_mask = Canon().text(st.value)
-        if isinstance(st, ast.Assign) and isinstance(st.targets[0], ast.Subscript) and isinstance(st.targets[0].value, ast.Name) and src(st.targets[0].slice) == "mask" \
-                and isinstance(st.value, ast.Subscript):
-            stores.setdefault(cur_mask, []).append((st.targets[0].value.id, src(st.value.value)))
+        if isinstance(st, ast.Assign) and isinstance(st.targets[0], ast.Name) and len(st.targets) == 1:
+            txt = Canon().text(st.value)
+            for nm, d in mask_def.items():
+                txt = txt.replace("logical_not(%s)" % nm, "logical_not(%s)" % d)
+            mask_def[st.targets[0].id] = txt
+        if isinstance(st, ast.Assign) and isinstance(st.targets[0], ast.Subscript) and isinstance(st.targets[0].value, ast.Name) and isinstance(st.targets[0].slice, ast.Name) \
+                and st.targets[0].slice.id in mask_def and isinstance(st.value, ast.Subscript) and isinstance(st.value.slice, ast.Name) and st.value.slice.id == st.targets[0].slice.id:
+            stores.setdefault(mask_def[st.targets[0].slice.id], []).append((st.targets[0].value.id, src(st.value.value)))
     want_pos = sorted([("b", "s"), ("fb", "fs")])
     want_neg = sorted([("a", "s"), ("fa", "fs")])
     def _nosign(k):
